@@ -246,6 +246,33 @@ CHECKS = {
             "'Provably below tolerance' is replaced by a measured sweep (n=10000,L=10) vs (n=40000,L=20): cases "
             "outside are counted as rejected; FFT comparisons are restricted to the domain where its fixed step and "
             "damping are adequate (documented probes)."),
+    "C19": ("3/C19",
+            "Hypothesis-generated margins, copulas, thresholds, steps and credit grids; closed-form intensity vs "
+            "inclusion-exclusion over the harness reference model and vs the chain's default-state rates; spread / "
+            "present-value maps vs numerical integration of the CDS payoff",
+            "Exploration: for d=1..3 (all margin families; Clayton incl. eta end points, independent, dependent) with "
+            "thresholds inside (l,-h): the closed-form default intensity equals the Levy mass of the union of the "
+            "default half-spaces computed from quadrature tail integrals and a re-typed copula (1e-6), is increasing "
+            "in each threshold; survival = exp(-t theta), par spread = (1-R) theta, implied threshold inverts the "
+            "spread, E[CDS payoff] under tau~Exp(theta) by quadrature of the payoff equals default leg - s x fixed leg "
+            "and implied_cds_spread inverts it; on symmetric and asymmetric CTMCCredit grids the sum of the rates of "
+            "the chain states with a coordinate below its threshold equals the closed form up to the independently "
+            "computed mass outside the grid's box.",
+            "Chain rates are those verified by C01; copula chains restricted to finite-variation margins."),
+    "C20": ("3/C20",
+            "Hypothesis-generated calibration problems with a solution by construction and operation lists over "
+            "Parameters objects; round trip (calibrate -> rebuild -> reprice) and differential against direct "
+            "construction",
+            "Exploration: for HEM, Merton, VG and CGMY (incl. y<0, 0, 1, 1.6) the default ATM calibration must return "
+            "a model of the same type whose ATM call equals the Black-Scholes price at the requested volatility "
+            "(1e-8 spot) with the parameter inside its interval, or raise; calibrate_model_parameter on the default or "
+            "another parameter against a call/put/forward priced by the same model at a drawn true value must return "
+            "a value in the interval for which the rebuilt model reprices the target, or raise; the input model's "
+            "parameters and cached fields must be unchanged. Sequences of valid/invalid assignments and "
+            "initialisation() calls followed by a rebuild must give the same cached fields, exponent, measure "
+            "integrals, omega and process drift as direct construction; invalid assignments must raise and keep the "
+            "old value.",
+            "Prices through the library's COS pricer (C18's subject); 'raises' outcomes are counted by label."),
 }
 
 NOT_YET = "check not built yet in this session; will be claimed when its module exists"
